@@ -29,9 +29,10 @@ Fixpoint corr_kept (rs : rsrc) (c : config) (p : pworld) (steps : list (bytes * 
   | [] => 0
   | (input, o) :: steps' =>
     let lg0 := pw_log p in
-    let '(p', r) := request_kept efuel rs c p input in
-    if (pw_taint p' && taint_stops c) || is_fuel (r_exec r) || is_ffuel (r_flush r) then 0 else
-    if resp_ok_gen (negb (pw_taint p')) r (pw_store p') (new_events lg0 (pw_log p')) o
+    let '(p', r) := request_kept efuel rs c (untaint_p p) input in
+    let tn := pw_taint p' && negb (exec_failed (r_exec r)) in
+    if (tn && taint_stops c) || is_fuel (r_exec r) || is_ffuel (r_flush r) then 0 else
+    if resp_ok_gen (negb tn) r (pw_store p') (new_events lg0 (pw_log p')) o
     then corr_kept rs c p' steps' (k + 1) else k
   end.
 Definition kept_corr_ok (ec : ecase) : bool :=
